@@ -179,8 +179,8 @@ extern int mpt_graph_set(MPT_STRUCT(graph) *gr, const char *name, MPT_INTERFACE(
 		}
 		return len;
 	}
-	if (!strcmp(name, "type") || !strcasecmp(name, "gridtype")) {
-		if (!src || !(len = src->_vptr->convert(src, 'c', &gr->grid))) {
+	if (!strcmp(name, "grid") || !strcmp(name, "type") || !strcasecmp(name, "gridtype")) {
+		if (!src || !(len = src->_vptr->convert(src, 'y', &gr->grid))) {
 			gr->grid = def_graph.grid;
 			return 0;
 		}
